@@ -31,8 +31,12 @@ class DimensionRenamer(Transformer):
         self.sample_dims_before = sample_dims
         self.feature_dims_before = feature_dims
 
+        # Name the dimensions by their role (sample dimensions first, in the order
+        # given) and not by their position in the data, so that all elements of a
+        # list of data objects share the same names for the sample dimensions
+        dims = (*sample_dims, *[dim for dim in X.dims if dim not in sample_dims])
         self.dim_mapping = {
-            dim: f"{self.base}{i}" for i, dim in enumerate(X.dims, start=self.start)
+            dim: f"{self.base}{i}" for i, dim in enumerate(dims, start=self.start)
         }
 
         self.sample_dims_after: Dims = tuple(
